@@ -10,7 +10,8 @@ RULE = ("enumeration cases walk the encoding order of one (width, segment, first
         "alphabet [0-9A-Za-z -+._*] classified by an independent regular grammar; pipeline "
         "cases rewrite the serial column of a structure. A case is non-trivial when it "
         "contains at least one base-36 value, one malformed string or one rewritten serial; "
-        "distinct = distinct case descriptors.")
+        "distinct = distinct case descriptors."
+        " Serial cases also run under -k / --protonate-all / both / -d, half of the amino-acid inputs with the program's own hydrogens written back; dedicated cases read hydrogens through -k --protonate-all with serials 1..N in another order.")
 EXPLANATION = ("thorough: every valid value of widths 1-5 is enumerated (exhaustive for the "
                "valid-value clause); malformed strings exhaustive to width 3, sampled beyond")
 EXHAUSTIVE = {"quick": False, "thorough": False}
